@@ -62,6 +62,16 @@ CHECKS = {
   "Heavy duplication and late verbatim replays (including the connection-creating Initial) and forged variants of genuine datagrams (bit flips, truncation, cross-connection header splice, garbage, altered tags): a datagram already authenticated once changes no frame counter when delivered again, a forged one changes none, counters balance per frame type, a loss-free run with 40 % forged injections ends with the same per-stream outcomes as without, and only the exact issued reset token for the CID in use resets a connection.",
   "forging is sampled (none of the injected variants was accepted), not excluded; plaintext-lane truncation forgeries are excluded because plaintext exposes reset tokens",
   "DESIGN.md section 4 C04"),
+ "C06": ("exploration",
+  "runtime monitoring: authenticated hostile frames (injection hook) against a reference model of the limits the victim advertised on the wire + credit monitor against the application-side ledger + buffered-bytes probe",
+  "Scripts of 1-8 correctly protected hostile frames probe every limit at limit-1/limit/limit+1 (stream and connection flow control, stream counts, final sizes via FIN and RESET_STREAM, DATAGRAM sizes, CRYPTO offsets) against server and client victims, reading (ordered/unordered/stop) or not, with set_receive_window in between, over a grid of window / stream-count / buffer configurations. The limits are those decoded from the victim's own packets; a reference model predicts accept or the admissible close codes; both the victim's ConnectionLost and the code its peer receives must match; accepted bytes are verified by the reading application and never lie beyond the advertised limit or final size; the reassembly buffers stay within the windows plus quinn's documented slack. In honest worlds every MAX_DATA / MAX_STREAM_DATA on the wire is bounded by what the application had consumed or discarded at that instant plus the window.",
+  "a frame on a stream whose final size is already known may be ignored by a victim that may have forgotten the stream; DATAGRAM payloads that fit the buffer but whose frame header exceeds max_datagram_frame_size are left to the receiver; exact CRYPTO boundary is not probed (consumed offset unknown from outside)",
+  "DESIGN.md section 4 C06"),
+ "C11": ("exploration",
+  "runtime monitoring: lock-step comparison of the real stream API with an executable reference model over exhaustively enumerated and random operation sequences",
+  "Every operation sequence up to depth 5/6 (unidirectional, 11-operation alphabet) and 4/5 (bidirectional, 19 operations), plus random sequences of length 6..40, is run on a fresh connected pair and on a small reference model; return value classes, Finished/Stopped event multisets, stray events and the open-stream count are compared after every operation. The honest-world application oracles (second Connected, accept() of local ids, ...) add in-vivo coverage.",
+  "exhaustive only up to the stated depth and alphabet; one stream per sequence; plaintext lane",
+  "DESIGN.md section 4 C11"),
 }
 NOT_YET = "check not built yet (work in progress; see DESIGN.md section 4)"
 
